@@ -22,7 +22,7 @@ RULE = ('Hypothesis strategy over simnet cases: publisher (source or relay) with
         ' Parts: differential (above, plus a balancing publisher variant); mixed_receiver (2-3-topic ephemeral source beside a synchronized/ephemeral one, per-message delays; non-trivial = >= 3 ephemeral sets in >= 5 calls); sync_beside_ephemeral (120-200 frames, slow or stalling consumer with sources [E?, S] / [S, E?], SUB queues bounded to 80 messages; non-trivial = the consumer was slow/stalled and got ephemeral frames).')
 ASSUMPTIONS = ['socket model of DESIGN.md section 3.3; PUB high-water-mark drops towards a stalled listener are not modelled (the synchronized stream does not depend on them)',
                'precondition: synchronized consumers are listed in the publisher\'s outputs_required (the docs warn that a publisher with only ephemeral listeners starts publishing)']
-BUDGET = {'quick': 70, 'thorough': 900}
+BUDGET = {'quick': 90, 'thorough': 1200}
 SLACK_MS = 450
 
 _S = {}
@@ -245,10 +245,10 @@ def mixed_strategy(draw, tier):
         'k_work': draw(st.lists(scen.work_ms, min_size=1, max_size=2)),
         'net': {**draw(scen.net_strategy(max_drops=0)), 'keyed': draw(st.booleans()),
                 # publishes of the ephemeral source that never reach the listener (PUB/SUB may drop towards a slow or still connecting subscriber)
-                'drops_to': [['X', 'K', i] for i in sorted(draw(st.sets(st.integers(0, 40), max_size=4)))] if draw(st.booleans()) else []},
+                'drops_to': [['X', 'K', i] for i in sorted(draw(st.sets(st.integers(0, 30), min_size=1, max_size=8)))] if draw(st.booleans()) else []},
         # some of X's messages carry only part of its topics
         'x_topics_by_seq': {str(k): draw(st.lists(st.sampled_from(xtopics), min_size=1, max_size=len(xtopics), unique=True))
-                            for k in draw(st.sets(st.integers(0, 12), max_size=4))},
+                            for k in draw(st.sets(st.integers(0, 12), max_size=6))},
         'starts': draw(st.lists(st.sampled_from([0, 0, 0, 40, 300]), min_size=3, max_size=3)),
         'ipc': draw(st.booleans()),
     }
@@ -399,6 +399,6 @@ def run_lagging(case):
     return ok(side >= 3 and (case['stall']['ms'] > 0 or case['f_work'][0] >= 20), classes, {'frames': n, 'with_side': side})
 
 
-PARTS = [Part('sync_beside_ephemeral', run_lagging, strategy=lagging_strategy, examples={'quick': 40, 'thorough': 600}),
-         Part('mixed_receiver', run_mixed, strategy=mixed_strategy, examples={'quick': 250, 'thorough': 5000}),
-         Part('differential', run_case, strategy=case_strategy, examples={'quick': 200, 'thorough': 4000})]
+PARTS = [Part('sync_beside_ephemeral', run_lagging, strategy=lagging_strategy, examples={'quick': 40, 'thorough': 600}, share=0.15),
+         Part('mixed_receiver', run_mixed, strategy=mixed_strategy, examples={'quick': 250, 'thorough': 5000}, share=0.55),
+         Part('differential', run_case, strategy=case_strategy, examples={'quick': 200, 'thorough': 4000}, share=0.3)]
